@@ -254,6 +254,18 @@ def _v_prim_no_tiebreak(tree):
     M.replace_expr(g, lambda e: isinstance(e, ast.Tuple) and M.src_is(e, "(weight, _, u, v)"), M.expr("(weight, u, v)"))
 
 
+def _v_validator_rejects_one(tree):
+    g = M.find_func(tree, "check_positive")
+    M.replace_expr(g, lambda e: M.src_is(e, "value <= 0"), M.expr("value <= 1"))
+
+
+def _v_result_default_status(tree):
+    cls = [n for n in tree.body if isinstance(n, ast.ClassDef) and n.name == "Result"][0]
+    for n in cls.body:
+        if isinstance(n, ast.AnnAssign) and M.src_is(n.target, "status"):
+            n.value = M.expr("Status.FEASIBLE")
+
+
 def _v_accept_all(tree):
     g = M.find_func(tree, "kruskal")
     M.replace_stmt(g, lambda s: isinstance(s, ast.If) and M.src_is(s.test, "uf.union(u, v)"), lambda s: [ast.Expr(value=M.expr("uf.union(u, v)"))] + s.body)
@@ -304,5 +316,7 @@ VARIANTS = [
     M.Variant("kruskal's tree list is never initialised", MS, _v_kruskal_init_deleted, "C13-G5"),
     M.Variant("kruskal's final return is missing", MS, _v_kruskal_final_return_deleted, "C13-G6"),
     M.Variant("prim drops the tie-breaking counter from its heap entries (seed C13-H)", MS, _v_prim_no_tiebreak, "C13-O2"),
+    M.Variant("check_positive rejects the value 1", "solvor/utils/validate.py", _v_validator_rejects_one, "C13-G7"),
+    M.Variant("Result defaults to FEASIBLE", "solvor/types.py", _v_result_default_status, "C13-G7"),
     M.Variant("twin: reformat", MS, _t_reformat, None),
 ]
